@@ -3,10 +3,10 @@
 import glob, json, os
 
 res = {}
-for f in sorted(glob.glob("/tmp/final_*.json") + glob.glob("/tmp/r5final_*.json") + glob.glob("/tmp/r6final_*.json") + glob.glob("/tmp/r7final_*.json") + glob.glob("/tmp/refinal_*.json")):
+for f in sorted(glob.glob("/tmp/final_*.json") + glob.glob("/tmp/r5final_*.json") + glob.glob("/tmp/r6final_*.json") + glob.glob("/tmp/r7final_*.json") + glob.glob("/tmp/r8final_*.json") + glob.glob("/tmp/refinal_*.json")):
     res.update(json.load(open(f)))
 first = {}
-for f in ("first_round.json", "second_round_first_outcome.json", "third_round_first_outcome.json", "fourth_round_first_outcome.json", "fifth_round_first_outcome.json", "sixth_round_first_outcome.json", "seventh_round_first_outcome.json"):
+for f in ("first_round.json", "second_round_first_outcome.json", "third_round_first_outcome.json", "fourth_round_first_outcome.json", "fifth_round_first_outcome.json", "sixth_round_first_outcome.json", "seventh_round_first_outcome.json", "eighth_round_first_outcome.json"):
     p = os.path.join("/verif/seeded", f)
     if os.path.exists(p):
         first.update(json.load(open(p)))
@@ -15,6 +15,7 @@ raw4 = json.load(open("/verif/seeded/fourth_round_first_run_raw.json"))
 raw4.update(json.load(open("/verif/seeded/fifth_round_first_run_raw.json")))
 raw4.update(json.load(open("/verif/seeded/sixth_round_first_run_raw.json")))
 raw4.update(json.load(open("/verif/seeded/seventh_round_first_run_raw.json")))
+raw4.update(json.load(open("/verif/seeded/eighth_round_first_run_raw.json")))
 for name in sorted(res):
     r = res[name]
     pid = name.split("_")[0]
